@@ -56,13 +56,15 @@ def required_cells(tier):
             if c == 'stalevalue' and f != 'A':
                 continue
             cells.append('corrupt:%s:%s' % (f, c))
+    cells += ['corrupt:C:letter', 'corrupt:A:letter']
     cells += ['depth:1', 'depth:2', 'depth:3', 'nothing-ran:comment-only', 'nothing-ran:skip-block',
               'nothing-ran:google-no-prompts', 'no-want-at-all', 'blankline-want:A', 'blankline-want:B', 'ok:I', 'stale-after-ignored-want']
     return cells
 
 
 KINDS = ['emit', 'emit', 'twice', 'twice', 'val', 'pv', 'pv', 'assign', 'for', 'multi', 'valml', 'semi', 'semival', 'quiet',
-         'blankout', 'wsout', 'emitblank', 'pvblank', 'aval', 'apv', 'acomp', 'coro_obj', 'noeol', 'noeol', 'assignprint', 'assignprint']
+         'blankout', 'wsout', 'emitblank', 'pvblank', 'aval', 'apv', 'acomp', 'coro_obj', 'noeol', 'noeol', 'assignprint', 'assignprint',
+         'strval1', 'dictval1', 'bytesval', 'printq1']
 
 
 def out_to_want(text):
@@ -111,6 +113,15 @@ def gen_program(rng):
         elif kind == 'assignprint':
             # a statement that prints but has no value of its own
             S.append(St(['y%d = emit(%d)' % (k, k)], kind, k))
+        elif kind == 'strval1':
+            # plain Python values whose repr holds a one letter string that looks like a bytes / unicode prefix
+            S.append(St(['quiet(%d) or %r' % (k, rng.choice(['b', 'u', 'B', 'U']))], kind, k, is_expr=True))
+        elif kind == 'dictval1':
+            S.append(St(['quiet(%d) or {%r: %d}' % (k, rng.choice(['b', 'u']), k)], kind, k, is_expr=True))
+        elif kind == 'bytesval':
+            S.append(St(["quiet(%d) or [b'x%d', 'b']" % (k, k)], kind, k, is_expr=True))
+        elif kind == 'printq1':
+            S.append(St(['print(repr(%r), quiet(%d))' % (rng.choice(['b', 'u']), k)], kind, k, is_expr=True))
         elif kind == 'noeol':
             # output without a trailing newline: what the next statement prints continues the same line
             S.append(St(['print("n%d", end=quiet(%d) or "")' % (k, k)], kind, k, is_expr=True))
@@ -197,7 +208,14 @@ def plan_wants(rng, S, ref, corrupt):
                 elif c == 'noellipsis' and not (len(st.lines) == 1 and len(wl) == 1 and len(wl[0]) >= 3 and
                                               '...' not in wl[0] and '#' not in st.lines[0]):
                     c = 'replace'
-                if c == 'stalevalue':
+                swaps = {"'%s'" % a: "'%s'" % rng.choice([x for x in 'bBuU' if x != a]) for a in 'bBuU'}
+                hit = [(li, q) for li, w in enumerate(wl) for q in sorted(swaps) if q in w]
+                if hit and c != 'stalevalue' and rng.random() < 0.7:
+                    # another one letter string where the text has one: a different value, whatever prefixes are dropped
+                    c = 'letter'
+                    li, q = hit[0]
+                    wl[li] = wl[li].replace(q, swaps[q], 1)
+                if c in ('stalevalue', 'letter'):
                     pass
                 elif c == 'noellipsis':
                     # the correct text with its tail replaced by '...', and the wildcard switched off for this
